@@ -550,8 +550,9 @@ class Check:
             "wall_s": round(self.elapsed(), 2),
             "violations": violations,
         }
-        (VERIF / "evidence").mkdir(exist_ok=True)
-        (VERIF / "evidence" / f"{prop}.json").write_text(json.dumps(ev, indent=1, default=str) + "\n")
+        evdir = Path(os.environ.get("VERIF_EVIDENCE_DIR") or VERIF / "evidence")  # override: scratch runs on changed trees
+        evdir.mkdir(parents=True, exist_ok=True)
+        (evdir / f"{prop}.json").write_text(json.dumps(ev, indent=1, default=str) + "\n")
         for l in out_lines:
             print(l)
         print(
@@ -565,13 +566,13 @@ class Check:
 
 
 def write_replay(prop: str, obj: dict) -> str:
-    d = VERIF / "replays"
-    d.mkdir(exist_ok=True)
+    d = Path(os.environ.get("VERIF_REPLAY_DIR") or VERIF / "replays")
+    d.mkdir(parents=True, exist_ok=True)
     blob = json.dumps(obj, indent=1, default=str, sort_keys=True)
     h = hashlib.sha1(blob.encode()).hexdigest()[:10]
     p = d / f"{prop}-{h}.json"
     p.write_text(blob + "\n")
-    return str(p.relative_to(VERIF))
+    return str(p.relative_to(VERIF)) if p.is_relative_to(VERIF) else str(p)
 
 
 def shrink_list(items: list, fails, min_len=1):
